@@ -93,7 +93,7 @@ func negMod(a *big.Int) *big.Int {
 var (
 	nMinus1   = new(big.Int).Sub(ref.N, big.NewInt(1))
 	nMinus2   = new(big.Int).Sub(ref.N, big.NewInt(2))
-	halfLo    = new(big.Int).Rsh(nMinus1, 1)                       // (n-1)/2
+	halfLo    = new(big.Int).Rsh(nMinus1, 1)                        // (n-1)/2
 	halfHi    = new(big.Int).Add(new(big.Int).Rsh(nMinus1, 1), one) // (n+1)/2
 	pow128    = new(big.Int).Lsh(one, 128)
 	pow255    = new(big.Int).Lsh(one, 255)
@@ -757,6 +757,11 @@ func propDLEQEncoding(t *rapid.T) {
 		mut = genuine + " "
 	case "overlong_appended":
 		mut = genuine + hex.EncodeToString(rapid.SliceOfN(rapid.Byte(), 1, 8).Draw(t, "extra"))
+		if isScalar {
+			// ParseDLEQ keeps the first 32 bytes: the scalar that is verified is unchanged, so the statement
+			// ("changing e, s or r makes verification fail") does not apply; recorded as an observation only.
+			expect = "same"
+		}
 	case "overlong_zero_prepended":
 		mut = "00" + genuine // same integer, 33 bytes
 		expect = "same"
@@ -1248,6 +1253,9 @@ func propMintSignatures(t *rapid.T) {
 	if len(items) > 0 {
 		it := items[rapid.IntRange(0, len(items)-1).Draw(t, "tamper_item")]
 		kind := rapid.SampledFrom(mintTamperKinds).Draw(t, "tamper_kind")
+		if kind == "A_other_keyset" && len(w.KSOrder) < 2 {
+			kind = "A_other_amount" // no second keyset in this history
+		}
 		if tamperIssued(t, w, it, kind) {
 			rec.Class("tamper_mint=" + kind)
 		}
